@@ -19,7 +19,8 @@ using std::string;
 static const double TABLE[] = { 0.0, -0.0, 1.0, -1.5, 1e-310, DBL_MAX, DBL_MIN, NaN, Infinity, -Infinity,
                                 0.1, 1.0/3.0, 123456789.123456789, 5e-324, -2.2250738585072011e-308, 6.02214076e23 };
 static const int NTAB = sizeof(TABLE)/sizeof(TABLE[0]);
-static const char* STRS[] = { "plain", "a<b", "x & y", "\"quoted\"", "it's", "  padded  ", "tab\there", "", "caf\xc3\xa9", "1 < 2 > 0 &amp;" };
+static const char* STRS[] = { "plain", "a<b", "x & y", "\"quoted\"", "it's", "  padded  ", "tab\there", "", "caf\xc3\xa9", "1 < 2 > 0 &amp;",
+                              "say \"it's\"", "\"' y='1", "'single' and \"double\" & <both>", "a\nb" };
 static const int NSTR = sizeof(STRS)/sizeof(STRS[0]);
 
 template <class T> static bool sameBits(const T& a, const T& b) { return std::memcmp(&a, &b, sizeof(T)) == 0; }
